@@ -52,6 +52,7 @@ def units(tier, seed):
     en = [(N, d) for N in range(1, 9) for d in range(1, 11) if comb(N + d - 1, d) <= 20000]
     for i in range(0, len(en), 8):
         us.append({'kind': 'enum', 'pairs': en[i:i + 8], 'tier': tier, 'seed': seed})
+    us.append({'kind': 'consumer', 'tier': tier, 'seed': seed})
     return us
 
 
@@ -179,8 +180,47 @@ def run_identity(u, out):
     out['samples'] = [{'N': N, 'd': d, 'n': n, 'identity_pairs': n * n, 'first_multi_indices': [list(j) for j in J[:4]]}]
 
 
+def run_consumer(u, out):
+    """the consumers init_tensor / extract_tensor: Gamma times the d-th Taylor coefficients along the rays is the vector of
+    all d-th order partials divided by the multi-index factorial - for the smooth, non-polynomial f(x) = x0 / x1 (closed
+    form), base points of every numeric kind"""
+    from algopy import UTPM
+    base = [3, 2]
+    kinds = {'float64': np.float64, 'int64': np.int64, 'int32': np.int32, 'int16': np.int16, 'uint8': np.uint8, 'list': None}
+    for d in (1, 2, 3, 4):
+        J = EI.generate_multi_indices(2, d)
+        x0, x1 = 3.0, 2.0
+        exp = []
+        for (a, b) in np.atleast_2d(J):
+            a, b = int(a), int(b)
+            if a == 0:
+                exp.append(x0 * (-1.0) ** b * x1 ** (-(b + 1)))
+            elif a == 1:
+                exp.append((-1.0) ** b * x1 ** (-(b + 1)))
+            else:
+                exp.append(0.0)
+        exp = np.array(exp)
+        for kn, dt in kinds.items():
+            x = list(base) if dt is None else np.array(base, dtype=dt)
+            case = {'kind': 'consumer', 'd': d, 'x_kind': kn}
+            out['evals'] += 1
+            out['nontrivial'] += 1
+            try:
+                X = UTPM.init_tensor(d, x)
+                y = X[0] / X[1]
+                got = UTPM.extract_tensor(2, y, as_full_matrix=False)
+            except Exception as ex:
+                out['fails'].append({'sig': 'C15|consumer|raises|x %s' % kn, 'case': case, 'detail': {'error': str(ex)[:200]}})
+                continue
+            if np.shape(got) != exp.shape or not np.all(np.abs(np.asarray(got, dtype=float) - exp) <= 1e-9 * (1 + np.abs(exp))):
+                out['fails'].append({'sig': 'C15|consumer|value|x %s' % kn, 'case': case, 'detail': {'got': np.asarray(got).tolist(), 'expected': exp.tolist()}})
+
+
 def run_unit(u):
     out = {'evals': 0, 'nontrivial': 0, 'fails': [], 'samples': [], 'maxima': {}, 'counters': {}}
+    if u['kind'] == 'consumer':
+        run_consumer(u, out)
+        return out
     if u['kind'] == 'enum':
         for N, d in u['pairs']:
             check_enum(N, d, out, {'kind': 'enum', 'pairs': [[N, d]]})
